@@ -11,6 +11,7 @@ import (
 )
 
 func main() {
+	sched.AdoptSolo()
 	if len(os.Args) >= 2 && os.Args[1] == "--worker" {
 		sched.Virtual = true
 		core.WorkerMain()
